@@ -588,6 +588,11 @@ _FLOAT_UF = {
 }
 
 
+def hist_component(i, tau):
+    """fixed concrete interpretation of the symbolic history component i (used on both sides when replaying)"""
+    return math.sin(1.7 * tau + i) + 0.3 * i
+
+
 def evalf(e, env, ufs=None):
     """Evaluate z3 term e numerically.  env: name -> float for constants; ufs: name -> python callable for
     uninterpreted functions not in the built-in table."""
@@ -620,6 +625,8 @@ def evalf(e, env, ufs=None):
             args = [go(c) for c in ch]
             if ufs and name in ufs:
                 return ufs[name](*args)
+            if name.startswith('Hist'):
+                return hist_component(int(name[4:]), args[0])
             return _FLOAT_UF[name](*args)
         if kind == z3.Z3_OP_ADD:
             return sum(go(c) for c in ch)
